@@ -3,6 +3,7 @@ import DryocVerif.Model.CurveInst
 import DryocVerif.Spec.X25519
 import DryocVerif.Spec.Ed25519
 import DryocVerif.Proofs.Curve
+import DryocVerif.Proofs.GenCurve
 /-
 C05 — Curve25519 scalar multiplication and the key exchange built on it.
 
@@ -312,5 +313,10 @@ example :
     scalarmult specPrims csk spk = scalarmult specPrims ssk cpk ∧
     scalarmult specPrims csk spk ≠ zeros 32 := by
   set_option maxRecDepth 100000 in decide
+
+/-- tie to the source: `scalarmult_curve25519.rs::clamp` as translated by `tools/rs2lean.py` (regenerated on every run)
+= the model's clamp on every 32-byte scalar (indeed on every scalar of at most 32 bytes) -/
+theorem translated_clamp (n : Bytes) (hn : n.length = 32) : Gen.Curve.clamp n = Model.Curve.clamp n :=
+  Proofs.GenCurve.clamp_eq_model n hn
 
 end DryocVerif.Properties.C05
